@@ -126,6 +126,12 @@ class ExprMixin:
             return self.getitem(o, slice(lo, hi, st))
         return self.getitem(o, self.eval(node.slice, env))
 
+    def ev_Slice(self, node, env):
+        lo = self.eval(node.lower, env) if node.lower else None
+        hi = self.eval(node.upper, env) if node.upper else None
+        st = self.eval(node.step, env) if node.step else None
+        return slice(lo, hi, st)
+
     def ev_Starred(self, node, env):
         raise Unsupported("bare starred")
 
@@ -328,6 +334,12 @@ class ExprMixin:
             raise PyRaise_(AttributeError(name))
         if isinstance(o, Sym):
             return self.models.sym_attr(self, o, name)
+        if isinstance(o, SummaryFn):
+            import builtins as _bi
+
+            if hasattr(_bi, o.name) and isinstance(getattr(_bi, o.name), type):
+                return getattr(getattr(_bi, o.name), name)
+            raise PyRaise_(AttributeError(name))
         if isinstance(o, (SymSeq, ListTerm)):
             return self.models.symseq_attr(self, o, name)
         return self.models.native_getattr(self, o, name)
